@@ -145,6 +145,23 @@ func (w *world) replayKind(e *types.DuplicateVoteEvidence) string {
 	return kind
 }
 
+// fullKey identifies an evidence item by EVERYTHING it carries (the harness's own notion of "the same item"; the
+// product's Hash() is not trusted for identity).
+func fullKey(e *types.DuplicateVoteEvidence) string {
+	v := func(x *types.Vote) string {
+		return fmt.Sprintf("%x/%d/%d/%d/%d/%s/%d/%x", x.ValidatorAddress.Bytes(), x.ValidatorIndex, x.Height, x.Round, x.Type, blockKey(x.BlockID), x.Timestamp.UnixNano(), x.Signature)
+	}
+	return fmt.Sprintf("%s|%s|%d|%d|%d", v(e.VoteA), v(e.VoteB), e.ValidatorPower, e.TotalVotingPower, e.Timestamp.UnixNano())
+}
+
+func (w *world) pendingFull() map[string]bool {
+	out := map[string]bool{}
+	for _, e := range w.pending() {
+		out[fullKey(e)] = true
+	}
+	return out
+}
+
 func (w *world) pending() map[string]*types.DuplicateVoteEvidence {
 	out := map[string]*types.DuplicateVoteEvidence{}
 	l, _ := w.nd.EvPool.PendingEvidence(1 << 40)
@@ -462,6 +479,27 @@ func TestEvidencePool(t *testing.T) {
 					if j > 0 && rapid.IntRange(0, 3).Draw(t, "dup") == 0 {
 						e = list[0].(*types.DuplicateVoteEvidence)
 						descs += " dup"
+					} else if len(history) > 0 && rapid.IntRange(0, 2).Draw(t, "hist") == 0 {
+						// an earlier item (possibly pending right now) with one UNSIGNED evidence field changed: a block
+						// carrying it must be refused whatever the pool already holds
+						old := history[rapid.IntRange(0, len(history)-1).Draw(t, "hold")]
+						cp := *old
+						a, b := *old.VoteA, *old.VoteB
+						cp.VoteA, cp.VoteB = &a, &b
+						switch rapid.IntRange(0, 3).Draw(t, "hmut") {
+						case 0:
+							cp.ValidatorPower++
+							descs += " earlier+power"
+						case 1:
+							cp.TotalVotingPower++
+							descs += " earlier+total"
+						case 2:
+							cp.Timestamp = cp.Timestamp.Add(time.Nanosecond)
+							descs += " earlier+time"
+						default:
+							descs += " earlier"
+						}
+						e = &cp
 					} else {
 						var d string
 						e, _, d = w.genEvidence(t)
@@ -470,7 +508,7 @@ func TestEvidencePool(t *testing.T) {
 					if e.ValidateBasic() != nil {
 						allValid = false // the block would fail Block.ValidateBasic before CheckEvidence is reached
 					}
-					if _, pend := w.pending()[string(e.Hash().Bytes())]; !pend && w.valid(e) != "" {
+					if !w.pendingFull()[fullKey(e)] && w.valid(e) != "" {
 						allValid = false
 						if w.valid(e) == "already-committed" {
 							replayed = true
